@@ -239,13 +239,16 @@ func (c *Conn) Negotiate(s *Script, timeout time.Duration) *Outcome {
 	faulted := false
 	reply := func(step string, req *Event, ok func()) bool {
 		out.Steps = append(out.Steps, step)
-		if s.CheckEarly && c.Pending(30*time.Millisecond) {
+		if s.CheckEarly && c.Pending(3*time.Millisecond) {
 			out.Early = append(out.Early, step)
 		}
 		if d, has := s.Dev[step]; has && !faulted {
 			faulted = true
 			out.FaultAt = step
 			c.Note("deviation at " + step + ": " + d.Kind)
+			if strings.HasPrefix(step, "open") && d.Kind == "stream-error" {
+				c.Send(s.header()) // a stream error is sent inside a stream
+			}
 			return c.playDev(step, d, req)
 		}
 		ok()
@@ -308,6 +311,9 @@ func (c *Conn) Negotiate(s *Script, timeout time.Duration) *Outcome {
 						c.Close()
 						return out
 					default:
+						// wait for the ClientHello first: bytes sent right behind <proceed/> could be swallowed by the
+						// client's clear-text XML reader, which would turn this fault into plain silence
+						c.Pending(2 * time.Second)
 						c.Send("garbage-instead-of-tls-handshake")
 						continue
 					}
